@@ -9,9 +9,25 @@ def force(flag):
     return tweak
 
 
+def only_in_export(w, rng):
+    """Flag on, and for every export file that exists but is shorter than declared the scan
+    directories hold NO correct copy: after the extension the export file itself must count as the
+    source of the pieces that lie inside its old length."""
+    w.resize = True
+    for t in w.torrents:
+        for f in t.files:
+            if f.pad or not f.length:
+                continue
+            tgt = tuple(list(w.export) + t.rel_target(f))
+            cur = w.files.get(tgt)
+            if cur and cur[0] == "file" and 0 < len(cur[1]) < f.length and f.content.startswith(cur[1]):
+                w.remove_files(lambda rel, data, tgt=tgt, f=f: rel != tgt and data == f.content)
+
+
 correspondence, search, replay, ASSUMPTIONS = runbase.make(
-    "C14", [oracles.c14],
-    [("on", 180, 1500, {"export_heavy": True}, force(True)), ("off", 100, 800, {"export_heavy": True}, force(False))],
-    "worlds in which most export files pre-exist in a random state (absent / shorter by any amount / exact / longer), any file order, flag on and off; pre-flight operations from the fs-shim log and before/after snapshots, plus trace validation of the prelude program",
+    "C14", [oracles.c14, oracles.c02],
+    [("on", 140, 1200, {"export_heavy": True}, force(True)), ("off", 80, 700, {"export_heavy": True}, force(False)),
+     ("source", 60, 500, {"export_heavy": True}, only_in_export)],
+    "worlds in which most export files pre-exist in a random state (absent / shorter by any amount / exact / longer), any file order, flag on and off, and (stream source) extended export files as the only source of their pieces (availability oracle of C02 on the state after the pre-flight); pre-flight operations from the fs-shim log and before/after snapshots, plus trace validation of the prelude program",
     "resize_abort_no_mutation / resize_extends_exactly on the prelude program; tied to fix_export_file_lengths by prelude trace validation",
     ["a directory sitting at an export path is outside the modelled fragment"])
